@@ -201,6 +201,11 @@ func packetHistory(r *core.Run, failPos, maxOps int) {
 	}
 	if failPos >= 0 && failPos < n {
 		ops[failPos] = failingWop(c)
+		// a second failing operation later on: the FIRST error is the one that stays
+		if failPos+1 < n && c.Prob(1, 3) {
+			ops[failPos+1+c.Intn(n-failPos-1)] = failingWop(c)
+			r.Probe("two_failing_writes")
+		}
 		r.Fault("failing_write")
 		if failPos == 0 {
 			r.Probe("failure_at_first_op")
@@ -208,6 +213,17 @@ func packetHistory(r *core.Run, failPos, maxOps int) {
 		if failPos == n-1 {
 			r.Probe("failure_at_last_op")
 		}
+	}
+	if n > 0 && c.Prob(1, 10) {
+		// the first four octets written spell a number: the number of octets that will be written in all (or that plus
+		// four): a body that looks as if it were framed already
+		ops[0] = wop{kind: 2}
+		pre := &wmodel{}
+		for i, o := range ops {
+			pre.apply(o, i)
+		}
+		ops[0].u = uint64(len(pre.b) + []int{0, 4, -4}[c.Intn(3)])
+		r.Probe("first_word_equals_total")
 	}
 	m := &wmodel{}
 	var w *packet.Writer
